@@ -368,6 +368,7 @@ def run(ctx):
         rej2 = ctx.validate_traces("Trace_ParamSubst.tla", "Trace_ParamSubst.cfg", bad, shards=4, expect_reject=True)
         if len(rej2) != len(bad):
             raise Machinery("binding self-test: %d corrupted traces, %d rejected" % (len(bad), len(rej2)))
+    ctx.replayed = tot_edges + nb
     ctx.notes.update(replayed_graph_nodes=tot_nodes, replayed_graph_edges=tot_edges, replayed_simulated_behaviours=nb,
                      recorded_traces=len(traces), crash_traces=sum(1 for t in traces if t["cfg"]["k"]),
                      corrupted_traces_rejected=len(bad),
